@@ -55,6 +55,14 @@ pub fn next(rng: &mut Rng, i: u64) -> (String, Value) {
         let ns: Vec<Value> = ["a", "aa", "", "aaa"].iter().map(|n| codes(n)).collect();
         return ("patmatch".into(), json!({"p": codes(&p), "ns": ns}));
     }
+    // nesting deeper than a narrow counter holds, balanced or not, without commas (one expansion):
+    // not subject to the cap below
+    if rng.chance(1, 120) {
+        let (o, c) = *rng.pick(&[(255usize, 255usize), (256, 256), (257, 257), (300, 300), (256, 255), (256, 0), (512, 256)]);
+        let p = format!("{}a{}-1.0", "{".repeat(o), "}".repeat(c));
+        let ns: Vec<Value> = ["a-1.0", "a", ""].iter().map(|n| codes(n)).collect();
+        return ("patmatch".into(), json!({"p": codes(&p), "ns": ns}));
+    }
     match rng.below(16) {
         0 if rng.chance(1, 4) => {
             // small brace skeletons in every order, balanced or not, with a little filler: the
